@@ -5,6 +5,7 @@
 package zzverif
 
 import (
+	"time"
 	"encoding/json"
 	"fmt"
 	"math/big"
@@ -222,6 +223,12 @@ func Run(harness func()) (violated bool, summary string) {
 	for _, d := range st.tmp {
 		os.RemoveAll(d)
 	}
+	// an assumption that fails AFTER an assertion has already failed does not take the
+	// failure back (a counterexample's model only fixes the inputs read up to the
+	// assertion; later inputs default to 0 and may miss their declared range)
+	if st.AssumeFailed && (len(st.AssertFailed) > 0 || len(st.KnownFailed) > 0) {
+		st.AssumeFailed = false
+	}
 	if p := os.Getenv("VERIF_OUT"); p != "" {
 		bz, _ := json.MarshalIndent(&st, "", " ")
 		os.WriteFile(p, bz, 0644)
@@ -282,3 +289,16 @@ func SetMapOrder(mode int) {}
 // Thorough reports whether the check runs in the thorough tier (harnesses
 // widen their universes then).
 func Thorough() bool { return os.Getenv("VERIF_TIER") == "thorough" }
+
+// ClockStart / SetClock let a harness drive the node-local wall clock.  Under
+// the executor time.Now returns exactly the instant set here (an arbitrary one
+// after ClockStart); natively the clock cannot be set, so ClockStart returns
+// the current second and SetClock waits until the real clock has reached the
+// requested second (harnesses use offsets of a few seconds).
+func ClockStart() int64 { return time.Now().Unix() }
+
+func SetClock(sec int64) {
+	for time.Now().Unix() < sec {
+		time.Sleep(20 * time.Millisecond)
+	}
+}
